@@ -34,7 +34,8 @@ CLAIMS = {
              "is cleared on every exit of operator++, and '--key=value' is split at the FIRST '=' (family of the search "
              "in determineNextArg), the key handed on is exactly the text in front of that '=' and the value starts at the "
              "character right behind it (Engine C over operator++ from every case of the cursor invariant, for every "
-             "word). The full equivalence of all command-line spellings (tokenisation by the "
+             "word); the pairing of a key with the following word or the glued rest of its word is decided by an exhaustive "
+             "table over value mode x what follows (Engine B, shared with C02-R12). The full equivalence of all command-line spellings (tokenisation by the "
              "ArgListIterator state machine) is a relation over an exponential input space and is NOT decided.",
         note="trusts clang AST/CFG, boost::lexical_cast; spelling equivalence not covered",
         technique="static analysis: who-may-write effect facts, def-use of stores, who-may-call"),
@@ -46,7 +47,10 @@ CLAIMS = {
              "tokenizer-loop iteration of all 45 value-taking assign() instantiations (closed under wrappers), "
              "unknown-element and missing-value paths end in throw, cardinality counted before every command-line "
              "assignment, the ignore_cardinality argument of every assignValue() call in the handler evaluates to false "
-             "in read mode commandLine, the end checks of value constraints compare every argument of the constraint. "
+             "in read mode commandLine, the end checks of value constraints compare every argument of the constraint; the "
+             "pairing of a key with its value is evaluated abstractly for every value mode x {nothing, value, key} "
+             "following (required without value throws, optional never takes a glued rest, 'command' ends the "
+             "evaluation). "
              "Path rules quantify over all command lines because they quantify over all paths.",
         note="trusts clang AST/CFG and the extractor; exceptions are the only failure channel; value conversion "
              "itself (boost::lexical_cast) and regex/file-system check semantics are not decided",
@@ -211,7 +215,8 @@ CLAIMS = {
              "of pass() vs. processLevel() (pre-check soundness), switch/enumerator agreement of the pre-check, loop "
              "shapes of Filters::pass (conjunction), Logging::log, Log::message, ILogDest::handleMessage "
              "(exactly-once delivery under the filters), completeness/distinctness of the class and level name "
-             "tables, single-writer and no-reset rules for the duplicate policy.",
+             "tables, single-writer and no-reset rules for the duplicate policy; the class-list filter sets exactly the bit "
+             "of every class it names and pass() returns exactly the bit of the message's class.",
         note="trusts clang AST/CFG; the full (level x class x filter-history) table as executed is not decided",
         also=("engine B (boolshape.py)", "engine E (effects.py)"),
         technique="static analysis: enum-capacity facts, truth tables over orderings, CFG loop-shape rules"),
